@@ -17,7 +17,7 @@ pub fn property() -> Property {
     Property {
         id: "C11",
         level: "exploration",
-        rule: "2-5 tasks on one fresh real client session, each doing what real callers do (open_stream -> disable_buffering -> destination via write_data_frame -> further data via write_data_frame or send_data; heartbeat frames), the first task starting while start_client has only just buffered the settings; the schedule is generated: yield counts at the H1 hook points (write_frame after the pending buffer, write_with_padding after the packet index / before the writer lock, open_stream before the SYN write, process_stream_data before its write, ...), task spawn order, transport Pending through small pipe capacities; padding on and off. Oracles on the recorded wire with padding erased (reference codec): complete parse and multiset equality with the submission logs, per-task FIFO, settings frame first, SYN before every PSH of its stream. Non-trivial = >= 2 tasks and >= 1 forced pre-emption taken at a hook point. Distinct = distinct serialized case. Three cases in ten run the session's own keep-alive monitor (interval 1 s or 30 s, first request due at once) as one more writer; its requests (id 0) may appear in any number but never before the settings frame and never inside another frame; stalls now last up to 61 s. Family `fresh_burst` (Lab-S, multi-threaded runtime): 1-2 rounds of 2-9 simultaneous requests through the real SOCKS5 front-end and a real client (first round: empty pool) to the reference server, which records every session's frames in order, answers SYNACK and echoes; runtime threads are blocked for up to 200 / 2000 / 10000 microseconds at 0, 64, 256 or 1024 of 1024 client-side tracing events (harness/src/stall.rs). Oracles: every request is served; on every session the first frame is the settings frame and there is one; every stream's SYN precedes its data.",
+        rule: "2-5 tasks on one fresh real client session, each doing what real callers do (open_stream -> disable_buffering -> destination via write_data_frame -> further data via write_data_frame or send_data; heartbeat frames), the first task starting while start_client has only just buffered the settings; the schedule is generated: yield counts at the H1 hook points (write_frame after the pending buffer, write_with_padding after the packet index / before the writer lock, open_stream before the SYN write, process_stream_data before its write, ...), task spawn order, transport Pending through small pipe capacities; padding on and off. Oracles on the recorded wire with padding erased (reference codec): complete parse and multiset equality with the submission logs, per-task FIFO, settings frame first, SYN before every PSH of its stream. Non-trivial = >= 2 tasks and >= 1 forced pre-emption taken at a hook point. Distinct = distinct serialized case. Three cases in ten run the session's own keep-alive monitor (interval 1 s or 30 s, first request due at once) as one more writer; its requests (id 0) may appear in any number but never before the settings frame and never inside another frame; stalls now last up to 61 s. Family `fresh_burst` (Lab-S, multi-threaded runtime): 1-2 rounds of 2-9 simultaneous requests through the real SOCKS5 front-end and a real client (first round: empty pool) to the reference server, which records every session's frames in order, answers SYNACK and echoes; runtime threads are blocked for up to 200 / 2000 / 10000 microseconds at 0, 64, 256 or 1024 of 1024 client-side tracing events (harness/src/stall.rs). Oracles: every request is served; on every session the first frame is the settings frame and there is one; every stream's SYN precedes its data. The writers family also runs crowds of 20 / 70 / 150 tasks (fixed cases, with and without padding) that all open their stream on the fresh session and wait at a barrier before any of them leaves the buffering phase: the settings frame must still be the first frame on the wire and every other oracle holds as for the small groups.",
         assumptions: vec![
             "schedules are explored at the instrumented points (H1), at transport Pendings and through spawn order, on a single-threaded runtime",
             "reference codec; tokio paused clock / current-thread scheduler",
